@@ -83,7 +83,10 @@ def gen_history(rnd: random.Random, flavor: dict) -> dict:
         """with probability comp_p turn a leaf into m*n or m+m' ; returns (spec, needs_explicit_criteria)"""
         if rnd.random() < comp_p:
             if rnd.random() < 0.5:
-                return {"type": "mul", "item": m, "n": rnd.randint(2, 3)}, True
+                spec = {"type": "mul", "item": m, "n": rnd.randint(2, 3)}
+                if kind == "exch" and rnd.random() < 0.5:
+                    spec["composite_bias"] = rnd.choice([0.2, 0.35, 0.65, 0.8])  # the composite's own insert/delete bias
+                return spec, True
             m2 = copy.deepcopy(m)
             if "op" in m2 and kind == "disp":
                 m2["op"] = gen.gen_disp_op(rnd, False)
@@ -95,6 +98,8 @@ def gen_history(rnd: random.Random, flavor: dict) -> dict:
                 spec["assoc"] = "right"  # m + (m' + m) instead of (m + m') + m
             elif rnd.random() < 0.15:
                 spec = {"type": "sum", "items": [m, {"type": "mul", "item": m2, "n": 2}], "assoc": "right"}  # m + m' * 2
+            if kind == "exch" and rnd.random() < 0.5:
+                spec["composite_bias"] = rnd.choice([0.2, 0.35, 0.65, 0.8])
             return spec, True
         return m, False
 
